@@ -189,8 +189,8 @@ def run(ctx):
         nrows += len(rows)
         bs = _regroup(rows, ctx.seed, 'e%d-' % i)
         del rows
-        # one child serves 16 configurations, separated by Restart (reset hook) ...
-        replay(bs, 16, 'all', salt=ctx.seed % 97)
+        # one child serves 16 (thorough: 8) configurations, separated by Restart (reset hook) ...
+        replay(bs, 16 if q else 8, 'all', salt=ctx.seed % 97)
         fresh += random.Random(ctx.seed + i).sample(bs, min(len(bs), 8 if q else 24))
     ctx.extra['exported_rows'] = nrows
     ctx.exhaustive = False  # exhaustive over the abstract rows of the bounded universes; concretisation is sampled
